@@ -23,6 +23,28 @@ namespace hv
 
     using namespace cv;
 
+    // one table for every place that dispatches on the shape name (erased writers, consumers, replay sources)
+#define HV_SHAPES(X)                                          \
+    X("TS", TS<Int>)                                          \
+    X("TSStr", TS<Str>)                                       \
+    X("SIGNAL", SIGNAL)                                       \
+    X("TSS", TSS<Int>)                                        \
+    X("TSSStr", TSS<Str>)                                     \
+    X("TSD", TSD<Int, TS<Int>>)                               \
+    X("TSDStr", TSD<Str, TS<Int>>)                            \
+    X("TSL", TSL<TS<Int>, 3>)                                 \
+    X("TSB", B2)                                              \
+    X("TSBS", BS)                                             \
+    X("TSW", TSW<Int, 3, 2>)                                  \
+    X("TSDB", TSD<Int, B2>)                                   \
+    X("TSDD", TSD<Int, TSD<Int, TS<Int>>>)                    \
+    X("TSDS", TSD<Int, TSS<Int>>)                             \
+    X("TSLS", TSL<TSS<Int>, 2>)                               \
+    X("TSDL", TSD<Str, TSL<TS<Int>, 2>>)                      \
+    X("TSBL", BL)                                             \
+    X("TSBB", BB)                                             \
+    X("TSDW", TSD<Int, TSW<Int, 3, 2>>)
+
     namespace
     {
         const Scenario *g_csc = nullptr;
@@ -43,22 +65,9 @@ namespace hv
                 if (shape == "TSW") return wire<TWWin>(w, Int{id}).erased();
                 throw std::invalid_argument("collections: no typed writer for shape " + shape);
             }
-            if (shape == "TS") return wire<CWriter, TS<Int>>(w, Int{id}).erased();
-            if (shape == "TSStr") return wire<CWriter, TS<Str>>(w, Int{id}).erased();
-            if (shape == "SIGNAL") return wire<CWriter, SIGNAL>(w, Int{id}).erased();
-            if (shape == "TSS") return wire<CWriter, TSS<Int>>(w, Int{id}).erased();
-            if (shape == "TSSStr") return wire<CWriter, TSS<Str>>(w, Int{id}).erased();
-            if (shape == "TSD") return wire<CWriter, TSD<Int, TS<Int>>>(w, Int{id}).erased();
-            if (shape == "TSDStr") return wire<CWriter, TSD<Str, TS<Int>>>(w, Int{id}).erased();
-            if (shape == "TSL") return wire<CWriter, TSL<TS<Int>, 3>>(w, Int{id}).erased();
-            if (shape == "TSB") return wire<CWriter, B2>(w, Int{id}).erased();
-            if (shape == "TSBS") return wire<CWriter, BS>(w, Int{id}).erased();
-            if (shape == "TSW") return wire<CWriter, TSW<Int, 3, 2>>(w, Int{id}).erased();
-            if (shape == "TSDB") return wire<CWriter, TSD<Int, B2>>(w, Int{id}).erased();
-            if (shape == "TSDD") return wire<CWriter, TSD<Int, TSD<Int, TS<Int>>>>(w, Int{id}).erased();
-            if (shape == "TSDS") return wire<CWriter, TSD<Int, TSS<Int>>>(w, Int{id}).erased();
-            if (shape == "TSLS") return wire<CWriter, TSL<TSS<Int>, 2>>(w, Int{id}).erased();
-            if (shape == "TSDL") return wire<CWriter, TSD<Str, TSL<TS<Int>, 2>>>(w, Int{id}).erased();
+#define HV_X(NAME, ...) if (shape == NAME) return wire<CWriter, __VA_ARGS__>(w, Int{id}).erased();
+            HV_SHAPES(HV_X)
+#undef HV_X
             throw std::invalid_argument("collections: unknown shape " + shape);
         }
 
@@ -74,23 +83,10 @@ namespace hv
         template <typename Fn>
         void with_shape(const std::string &shape, Wiring &w, const WiringPortRef &ref, Fn &&fn)
         {
-            if (shape == "TS") fn(Port<TS<Int>>{w, ref});
-            else if (shape == "TSStr") fn(Port<TS<Str>>{w, ref});
-            else if (shape == "SIGNAL") fn(Port<SIGNAL>{w, ref});
-            else if (shape == "TSS") fn(Port<TSS<Int>>{w, ref});
-            else if (shape == "TSSStr") fn(Port<TSS<Str>>{w, ref});
-            else if (shape == "TSD") fn(Port<TSD<Int, TS<Int>>>{w, ref});
-            else if (shape == "TSDStr") fn(Port<TSD<Str, TS<Int>>>{w, ref});
-            else if (shape == "TSL") fn(Port<TSL<TS<Int>, 3>>{w, ref});
-            else if (shape == "TSB") fn(Port<B2>{w, ref});
-            else if (shape == "TSBS") fn(Port<BS>{w, ref});
-            else if (shape == "TSW") fn(Port<TSW<Int, 3, 2>>{w, ref});
-            else if (shape == "TSDB") fn(Port<TSD<Int, B2>>{w, ref});
-            else if (shape == "TSDD") fn(Port<TSD<Int, TSD<Int, TS<Int>>>>{w, ref});
-            else if (shape == "TSDS") fn(Port<TSD<Int, TSS<Int>>>{w, ref});
-            else if (shape == "TSLS") fn(Port<TSL<TSS<Int>, 2>>{w, ref});
-            else if (shape == "TSDL") fn(Port<TSD<Str, TSL<TS<Int>, 2>>>{w, ref});
-            else throw std::invalid_argument("collections: unknown shape " + shape);
+#define HV_X(NAME, ...) if (shape == NAME) { fn(Port<__VA_ARGS__>{w, ref}); return; }
+            HV_SHAPES(HV_X)
+#undef HV_X
+            throw std::invalid_argument("collections: unknown shape " + shape);
         }
 
         template <typename S>
@@ -99,22 +95,9 @@ namespace hv
         WiringPortRef make_replay(Wiring &w, const std::string &shape, const std::string &key)
         {
             WiringPortRef out;
-            if (shape == "TS") return wire_replay<TS<Int>>(w, key);
-            if (shape == "TSStr") return wire_replay<TS<Str>>(w, key);
-            if (shape == "SIGNAL") return wire_replay<SIGNAL>(w, key);
-            if (shape == "TSS") return wire_replay<TSS<Int>>(w, key);
-            if (shape == "TSSStr") return wire_replay<TSS<Str>>(w, key);
-            if (shape == "TSD") return wire_replay<TSD<Int, TS<Int>>>(w, key);
-            if (shape == "TSDStr") return wire_replay<TSD<Str, TS<Int>>>(w, key);
-            if (shape == "TSL") return wire_replay<TSL<TS<Int>, 3>>(w, key);
-            if (shape == "TSB") return wire_replay<B2>(w, key);
-            if (shape == "TSBS") return wire_replay<BS>(w, key);
-            if (shape == "TSW") return wire_replay<TSW<Int, 3, 2>>(w, key);
-            if (shape == "TSDB") return wire_replay<TSD<Int, B2>>(w, key);
-            if (shape == "TSDD") return wire_replay<TSD<Int, TSD<Int, TS<Int>>>>(w, key);
-            if (shape == "TSDS") return wire_replay<TSD<Int, TSS<Int>>>(w, key);
-            if (shape == "TSLS") return wire_replay<TSL<TSS<Int>, 2>>(w, key);
-            if (shape == "TSDL") return wire_replay<TSD<Str, TSL<TS<Int>, 2>>>(w, key);
+#define HV_X(NAME, ...) if (shape == NAME) return wire_replay<__VA_ARGS__>(w, key);
+            HV_SHAPES(HV_X)
+#undef HV_X
             throw std::invalid_argument("collections: unknown shape " + shape);
         }
 
